@@ -20,9 +20,9 @@ def cond_src(c, obliv):
 def rhs_src(r, obliv):
     import re
     if not obliv:
-        return re.sub(r"l([01])", r"l[\1]", r)
+        return re.sub(r"l([01])", r"l[\1]", r).replace("F", "f")
     out = r
-    for v in ("x", "y"):
+    for v in ("x", "y", "k", "w"):
         out = out.replace(v, "_." + v)
     return re.sub(r"l([01])", r"_.l[\1]", out)
 
@@ -139,18 +139,22 @@ class Emitter:
 def emit_program(stmts, obliv, explicit_ctx=True):
     e = Emitter(obliv, explicit_ctx)
     if obliv:
-        e.emit(0, "def prog(X, Y, B, N):")
+        e.emit(0, "def prog(X, Y, B, N, F=None):")
         e.emit(1, "_ = BranchingValues()")
         e.emit(1, "_.x = X")
         e.emit(1, "_.y = Y")
         e.emit(1, "_.l = [X, Y]")
+        e.emit(1, "_.k = 5")            # variables that start as plain Python constants (int, float)
+        e.emit(1, "_.w = 1.5")
         e.block(stmts, 1)
-        e.emit(1, "return _.x, _.y, _, _.l")
+        e.emit(1, "return _.x, _.y, _, _.l, _.k, _.w")
     else:
-        e.emit(0, "def prog(x, y, b, n):")
+        e.emit(0, "def prog(x, y, b, n, f=None):")
         e.emit(1, "l = [x, y]")
+        e.emit(1, "k = 5")
+        e.emit(1, "w = 1.5")
         e.block(stmts, 1)
-        e.emit(1, "return x, y, l")
+        e.emit(1, "return x, y, l, k, w")
     return "\n".join(e.lines) + "\n"
 
 
@@ -244,6 +248,22 @@ def programs(level):
                 for brk in (None, "y==3", "b"):
                     out.append([("while", c, mx, [a], brk)])
                     out.append([("while", c, mx, [("assign", "x", "x+1"), a], brk)])
+    # --- variables that start as plain Python constants and are assigned integer / fixed-point secrets
+    KW = [("assign", "k", "x+1"), ("assign", "k", "k*2"), ("assign", "k", "7"), ("assign", "w", "F"), ("assign", "w", "w+F"),
+          ("assign", "w", "F*2"), ("assign", "w", "F-w")]
+    # (not in the alphabet: a branch that assigns a plain float to a variable still holding a plain float -
+    #  if_then_else of two Python floats is refused with a TypeError for every condition, a type limitation)
+    for a in KW:
+        for c in CONDS:
+            out.append([("if", [(c, [a])], None)])
+            out.append([("if", [(c, [A[0]])], [a])])
+            out.append([("if", [(c, [a])], [KW[4] if a[1] == "w" else KW[1]])])
+        out.append([("if", [("x<y", [A[0]]), ("b", [a])], None)])
+        for mx in (2, 3):
+            out.append([("for", mx, [a], False)])
+            out.append([("while", "i!=n", mx, [a], "b")])
+            out.append([("while", "x<y", mx, [a, A[0]], None)])
+        out.append([("if", [("b", [("for", 2, [a], False)])], None)])
     if level >= 1:
         # nesting 2: if in if, loop in if, if in loop, loop in loop
         inner_ifs = [("if", [(c, [a])], e) for c in ("x<y", "b", "x==1") for a in A4[:2] for e in (None, [A[4]])]
